@@ -76,6 +76,16 @@ Proof.
     induction H using vrelsF_mut with (P := fun c ty cv av _ => vrelF R' c ty cv av); try (econstructor; eauto; fail).
 Qed.
 
+(* pointwise relation of argument lists along a signature, for an arbitrary value relation *)
+Inductive relsV (V : cchi -> cty -> bval -> value -> Prop) : cctx -> list bval -> list value -> Prop :=
+| RV_nil : relsV V [] [] []
+| RV_cons : forall b sg cv cvs av avs,
+    V (cbchi b) (cbty b) cv av -> relsV V sg cvs avs -> relsV V (b :: sg) (cv :: cvs) (av :: avs).
+Lemma relsV_vrelsF : forall R sg cvs avs, relsV (vrelF R) sg cvs avs <-> vrelsF R sg cvs avs.
+Proof.
+  intros R sg cvs avs. split; intros H; induction H; constructor; auto.
+Qed.
+
 (* the message a closure-like Core value of kind (c, ty) understands, the AxCut invocation that
    carries it (tag, fields) and the Core reaction *)
 Definition msg (V : cchi -> cty -> bval -> value -> Prop) (c : cchi) (ty : cty) (cv : bval)
@@ -86,11 +96,11 @@ Definition msg (V : cchi -> cty -> bval -> value -> Prop) (c : cchi) (ty : cty) 
   | CCns, CDecl T, CoreSem.BK kv =>
       is_codata codata ty = false /\
       exists d sg args, find_decl data T = Some d /\ find_cxtor d tag = Some sg /\
-        vrelsF V (cxargs sg) args fs /\ sr = CoreSem.interact_val (PCtor tag args) kv
+        relsV V (cxargs sg) args fs /\ sr = CoreSem.interact_val (PCtor tag args) kv
   | CPrd, CDecl T, CoreSem.BP pv =>
       is_codata codata ty = true /\
       exists d sg args, find_decl codata T = Some d /\ find_cxtor d tag = Some sg /\
-        vrelsF V (cxargs sg) args fs /\ sr = CoreSem.interact_val pv (KDtor tag args)
+        relsV V (cxargs sg) args fs /\ sr = CoreSem.interact_val pv (KDtor tag args)
   | _, _, _ => False
   end.
 Definition clo_ok (k : nat) (V : cchi -> cty -> bval -> value -> Prop) (c : cchi) (ty : cty) (cv : bval)
